@@ -330,7 +330,8 @@ type knownEntry struct {
 }
 
 var (
-	predicates  = map[string]KnownPredicate{}
+	// "never" is for fixed entries: a fixed finding suppresses nothing.
+	predicates  = map[string]KnownPredicate{"never": func(string, json.RawMessage, *Failure) bool { return false }}
 	knownLoaded bool
 	knownOpen   []knownEntry
 	knownAll    []knownEntry
